@@ -62,11 +62,20 @@ def cases(rng, tier):
         m = rng.randint(0, n + 2)
         qs = [rng.randrange(n) for _ in range(m)] if rng.random() < 0.5 else rng.sample(range(n), min(m, n))
         yield ("restrict", {"n": n, "obs": obs, "qubits": qs, "as_list": rng.random() < 0.3})
-    for _ in range(N):
+    for k_ in range(N):
         n = rng.randint(1, 8)
         obs = _rand_obs(rng, n, rng.randint(1, 4))
         pool = rng.sample(LABELS, rng.randint(1, 4))
         labels = [rng.randrange(len(pool)) for _ in range(n)]
+        if k_ % 6 == 0:
+            # more than eight qubits, contiguous blocks: a small partition at high indices
+            n = rng.randint(9, 14)
+            obs = _rand_obs(rng, n, rng.randint(1, 3))
+            pool = rng.sample(LABELS, 2)
+            cut = rng.randint(6, n - 1)
+            labels = [0] * cut + [1] * (n - cut)
+            if rng.random() < 0.3:
+                labels = labels[::-1]
         yield ("decompose", {"n": n, "obs": obs, "labels": labels, "pool": [repr(x) for x in pool], "pool_idx": [LABELS.index(x) for x in pool]})
     for _ in range(N):
         n = rng.randint(0, 6)
@@ -91,7 +100,9 @@ def cases(rng, tier):
             regs.append(c)
             left -= c
         yield ("expand", {"n": n, "obs": obs, "layout": [list(t) for t in layout], "regs": regs,
-                          "final_regs": rng.random() < 0.5})
+                          "final_regs": rng.random() < 0.5,
+                          # classical bits in the final circuit (loose ones / a register), as cut_wires copies them over
+                          "clbits": rng.choice([0, 0, 1, 3]), "creg": rng.choice([0, 0, 2])})
 
 
 def _expand_objs(payload):
@@ -107,6 +118,12 @@ def _expand_objs(payload):
         for r in regs:
             if all(b in bits for b in r):
                 final.add_register(r)
+    if payload.get("clbits"):
+        from qiskit.circuit import Clbit
+        final.add_bits([Clbit() for _ in range(payload["clbits"])])
+    if payload.get("creg"):
+        from qiskit.circuit import ClassicalRegister
+        final.add_register(ClassicalRegister(payload["creg"], "meas"))
     return orig, final
 
 
